@@ -380,7 +380,17 @@ fn step(w: &mut World, op: &Op, st: &mut Stats) -> Result<(), (&'static str, Str
             let h = matches!(op, Op::Hcat { .. });
             let (ma, mb) = (w.mm[*a].clone(), w.mm[*b].clone());
             let ok = if h { ma.r == mb.r } else { ma.c == mb.c };
-            let (x, y) = (&w.ms[*a], w.ms[*b].clone());
+            // the consumed operand is a plain copy, or (every third time) a copy living in a buffer with spare
+            // capacity, as the result of an earlier push / hcat / with_capacity + extend would
+            let y = if (ma.d.len() * 7 + mb.d.len()) % 3 == 0 && !mb.d.is_empty() {
+                st.inc("operand_with_spare_capacity");
+                let mut v = Vec::with_capacity(mb.d.len() + ma.d.len() + 5);
+                v.extend_from_slice(w.ms[*b].data().data());
+                Matrix::new(v, mb.r as i32, mb.c as i32)
+            } else {
+                w.ms[*b].clone()
+            };
+            let x = &w.ms[*a];
             let what = format!("{}({}x{}, {}x{})", if h { "hcat" } else { "vcat" }, ma.r, ma.c, mb.r, mb.c);
             if let Some(n) = guarded!(ok, if h { x.hcat(y) } else { x.vcat(y) }, what) {
                 let model = if h {
